@@ -839,3 +839,12 @@ def replay(ctx, rp):
   if f is None:
     return True, f'{rp["clause"]} / {rp["pipeline"]}: agrees now (worst error / tolerance {info["worst"]:.3g})'
   return False, f['what']
+
+
+def reproduce_known(ctx, entry):
+  """re-run the stored case of a listed finding on the current tree: does it still fail with the
+  same key?"""
+  if entry.get('clause') not in EVAL:
+    return True
+  f, _ = EVAL[entry['clause']](entry)
+  return f is not None and f['key'] == entry['key']
